@@ -465,6 +465,69 @@ package bigbuff
 //@   panics nilrecv : b == nil
 //@   assumes inited : b.ctx != nil && b.cancel != nil && b.consumers != nil && b.done != nil && b.cleaner != nil && b.cond != nil
 
+//@ # The initialisation steps ensure() queues are verified one by one: each runs under the write lock, sets its field
+//@ # only if it is still unset when the lock is held (the unlocked first check is only a hint: two first uses may race)
+//@ # and never replaces a value another goroutine installed in the meantime.
+//@ func (*Buffer).ensure$2
+//@   props C05 C11 C12
+//@   modular
+//@   holds W : b.mutex
+//@   init-once mutex : ctx
+//@   requires recv : b != nil
+//@   ensures keep : old(b.ctx) != nil ==> b.ctx == old(b.ctx)
+//@   ensures set : b.ctx != nil
+
+//@ func (*Buffer).ensure$3
+//@   props C05 C11 C12
+//@   modular
+//@   holds W : b.mutex
+//@   # the context is replaced by its cancellable child exactly once, together with the first cancel function
+//@   init-once mutex : ctx cancel | b.cancel == nil
+//@   requires recv : b != nil && b.ctx != nil
+//@   ensures keep : old(b.cancel) != nil ==> b.cancel == old(b.cancel) && b.ctx == old(b.ctx)
+//@   ensures set : b.cancel != nil && b.ctx != nil
+
+//@ func (*Buffer).ensure$4
+//@   props C05 C11 C12
+//@   modular
+//@   holds W : b.mutex
+//@   init-once mutex : consumers
+//@   requires recv : b != nil
+//@   ensures keep : old(b.consumers) != nil ==> b.consumers == old(b.consumers)
+//@   ensures set : b.consumers != nil
+
+//@ func (*Buffer).ensure$5
+//@   props C05 C11 C12
+//@   modular
+//@   holds W : b.mutex
+//@   init-once mutex : done
+//@   requires recv : b != nil
+//@   ensures keep : old(b.done) != nil ==> b.done == old(b.done)
+//@   ensures set : b.done != nil
+
+//@ func (*Buffer).ensure$6
+//@   props C04 C05 C11 C12
+//@   modular
+//@   holds W : b.mutex
+//@   # the steps run in order within one critical section and the condition variable is created last: while the cleaner
+//@   # is unset nobody can be waiting (monitor invariant `cleaner`); the loop applying the steps is not verified
+//@   requires recv : b != nil && inv(b.mutex)
+//@   ensures keep : old(b.cleaner) != nil ==> b.cleaner == old(b.cleaner)
+//@   ensures set : b.cleaner != nil
+//@   # the default configuration uses DefaultCleaner (its cooldown is the package variable DefaultCleanerCooldown, whose sign is the user's business)
+//@   ensures default : old(b.cleaner) == nil ==> b.cleaner.Cleaner != nil
+
+//@ func (*Buffer).ensure$7
+//@   props C04 C05 C11 C12
+//@   modular
+//@   holds W : b.mutex
+//@   init-once mutex : cond
+//@   requires recv : b != nil
+//@   # the condition variable every waiter parks on is created once and never replaced; its cleanup goroutine is started with it
+//@   ensures keep : old(b.cond) != nil ==> b.cond == old(b.cond) && spawned("(*Buffer).cleanup") == 0
+//@   ensures set : b.cond != nil
+//@   ensures started : old(b.cond) == nil ==> spawned("(*Buffer).cleanup") == 1
+
 //@ func (*Buffer).get
 //@   props C01 C03 C05 C12
 //@   holds R : b.mutex
